@@ -6,6 +6,7 @@ import (
 	"io"
 	"net"
 	"net/http"
+	"os"
 	"reflect"
 	"strings"
 	"testing"
@@ -16,6 +17,7 @@ import (
 	"verifharness/c13"
 	"verifharness/vlib"
 
+	"github.com/lesismal/nbio"
 	"github.com/lesismal/nbio/nbhttp"
 	"github.com/lesismal/nbio/nbhttp/websocket"
 	"pgregory.net/rapid"
@@ -519,5 +521,158 @@ func TestCheck(t *testing.T) {
 	vlib.RunCheck(r, vlib.Check[ParseCase]{Name: "http-parse", N: r.Pick(25000, 400000), Gen: genParse, Run: runParse})
 	vlib.RunCheck(r, vlib.Check[WSCase]{Name: "websocket", N: r.Pick(25000, 400000), Gen: genWS, Run: runWS})
 	vlib.RunCheck(r, vlib.Check[HandoverCase]{Name: "upgrade-handover", N: r.Pick(15000, 300000), Gen: genHandover, Run: runHandover})
+	vlib.RunCheck(r, vlib.Check[ConnCase]{Name: "conn-write-queue", N: r.Pick(2400, 60000), Gen: genConn, Run: runConn, RecordCurrent: true})
 	r.Finish()
+}
+
+// ---------- workload 5: the core connection's write queue ----------
+
+// ConnCase: a real connection of the core engine whose pooled write buffers come from the tracking
+// allocator. Programs of Write / Writev / Sendfile with a peer that reads in steps build backlogs, drain
+// them partly or completely, queue files behind buffers and buffers behind files, and end with a close in
+// the middle of it or after a complete drain.
+type ConnOp struct {
+	K string `json:"k"` // write, writev, sendfile, peer-read, pause, close
+	N int    `json:"n"`
+}
+
+type ConnCase struct {
+	Transport string   `json:"transport"`
+	Mode      string   `json:"mode"`
+	Ops       []ConnOp `json:"ops"`
+	DrainEnd  bool     `json:"drain_before_close"`
+}
+
+func runConn(c ConnCase) vlib.Result {
+	return vlib.WithWatchdog(60*time.Second, "the connection write queue", func() vlib.Result {
+		vlib.Logs.Take()
+		res := vlib.Result{Classes: []string{"workload=conn-write-queue", "mode=" + c.Mode}}
+		tr := vlib.NewTracker()
+		conf := nbio.Config{NPoller: 1, BodyAllocator: tr}
+		vlib.ApplyMode(&conf, c.Mode)
+		g := nbio.NewEngine(conf)
+		g.OnData(func(*nbio.Conn, []byte) {})
+		if err := g.Start(); err != nil {
+			return vlib.Fail("harness: engine start: %v", err)
+		}
+		stopped := false
+		defer func() {
+			if !stopped {
+				vlib.StopEngine(g.Stop, 10*time.Second)
+			}
+		}()
+		a, peer, err := vlib.StreamPair(c.Transport, 4096, 4096)
+		if err != nil {
+			return vlib.Fail("harness: socket pair: %v", err)
+		}
+		defer peer.Close()
+		nbc, err := g.AddConn(a)
+		if err != nil {
+			return vlib.Fail("harness: AddConn: %v", err)
+		}
+		tmpdir, _ := os.MkdirTemp("", "c11conn")
+		defer os.RemoveAll(tmpdir)
+		buf := make([]byte, 1<<16)
+		var accepted, received int64
+		closed := false
+		queuedBehind := false
+		for _, op := range c.Ops {
+			if closed {
+				break
+			}
+			switch op.K {
+			case "write":
+				if n, err := nbc.Write(make([]byte, op.N)); err == nil {
+					accepted += int64(n)
+				}
+			case "writev":
+				if n, err := nbc.Writev([][]byte{make([]byte, op.N/3), make([]byte, op.N-op.N/3)}); err == nil {
+					accepted += int64(n)
+				}
+			case "sendfile":
+				if op.N == 0 {
+					continue
+				}
+				f, ferr := os.CreateTemp(tmpdir, "sf")
+				if ferr != nil {
+					return vlib.Fail("harness: temp file: %v", ferr)
+				}
+				_, _ = f.Write(make([]byte, op.N))
+				_, _ = f.Seek(0, 0)
+				if n, err := nbc.Sendfile(f, int64(op.N)); err == nil {
+					accepted += n
+				}
+				_ = f.Close()
+				if accepted-received > 300000 {
+					queuedBehind = true
+				}
+			case "peer-read":
+				left := op.N
+				for left > 0 {
+					k := left
+					if k > len(buf) {
+						k = len(buf)
+					}
+					_ = peer.SetReadDeadline(time.Now().Add(20 * time.Millisecond))
+					n, err := peer.Read(buf[:k])
+					received += int64(n)
+					left -= n
+					if err != nil {
+						break
+					}
+				}
+			case "pause":
+				time.Sleep(time.Duration(op.N) * time.Microsecond)
+			case "close":
+				_ = nbc.Close()
+				closed = true
+			}
+		}
+		if !closed && c.DrainEnd {
+			deadline := time.Now().Add(5 * time.Second)
+			for received < accepted && time.Now().Before(deadline) {
+				_ = peer.SetReadDeadline(time.Now().Add(50 * time.Millisecond))
+				n, _ := peer.Read(buf)
+				received += int64(n)
+			}
+			res.Classes = append(res.Classes, "drained-before-close")
+		}
+		_ = nbc.Close()
+		stopped = true
+		vlib.StopEngine(g.Stop, 10*time.Second)
+		time.Sleep(time.Millisecond)
+		if v := tr.Finish(); len(v) > 0 {
+			res.Err = fmt.Errorf("%s", v[0])
+			return res
+		}
+		if queuedBehind {
+			res.Classes = append(res.Classes, "file-queued-behind-backlog")
+		}
+		res.NonTrivial = tr.FreedCount() > 0
+		return res
+	})
+}
+
+func genConn(t *rapid.T) ConnCase {
+	c := ConnCase{Transport: rapid.SampledFrom([]string{"tcp", "unix"}).Draw(t, "transport"), Mode: rapid.SampledFrom(vlib.Modes).Draw(t, "mode"), DrainEnd: rapid.Bool().Draw(t, "drainend")}
+	n := rapid.IntRange(2, 14).Draw(t, "nops")
+	for i := 0; i < n; i++ {
+		k := rapid.SampledFrom([]string{"write", "write", "write", "writev", "sendfile", "sendfile", "peer-read", "peer-read", "pause", "close"}).Draw(t, "op")
+		if k == "close" && i < n-1 && rapid.IntRange(0, 3).Draw(t, "earlyclose") != 0 {
+			k = "write"
+		}
+		op := ConnOp{K: k}
+		switch k {
+		case "write", "writev":
+			op.N = rapid.SampledFrom([]int{0, 1, 23, 4096, 40960, 65536, 70000, 300000}).Draw(t, "size")
+		case "sendfile":
+			op.N = rapid.SampledFrom([]int{1, 4096, 70000, 1 << 20}).Draw(t, "fsize")
+		case "peer-read":
+			op.N = rapid.SampledFrom([]int{1, 4096, 100000, 1 << 20, 8 << 20}).Draw(t, "readn")
+		case "pause":
+			op.N = rapid.SampledFrom([]int{100, 1000, 5000}).Draw(t, "pauseus")
+		}
+		c.Ops = append(c.Ops, op)
+	}
+	return c
 }
